@@ -1,7 +1,7 @@
 (* C05 over the executable field Qc: floor / round-half-even satisfy what the abstract theorems assume;
    the field-of-view and no-tie hypotheses in terms of Q's order. *)
 From Coq Require Import ZArith QArith Qround Qabs Qcanon List Lia Lqa Bool.
-From DV Require Import Base.Field Base.FieldFacts Base.LinAlg Base.QcInst Model.Enums Model.Grid Model.Sampler Model.Lattice
+From DV Require Import Base.Field Base.FieldFacts Base.LinAlg Base.QcInst Model.Enums Model.Homog Model.Grid Model.ItkSpec Model.Sampler Model.Lattice
   Model.SamplerQc Model.Resample Model.ResampleQc Proofs.C05Main.
 Import ListNotations.
 
@@ -106,12 +106,12 @@ Proof. destruct m; [apply fovQ_ok | apply no_tieQ_ok]. Qed.
 
 (* ---------- the theorems of C05Main instantiated at the executable field, hypotheses in Q's order ---------- *)
 Local Close Scope Q_scope.
-Lemma sample_matches_itk2_Qc (m : smode) (p : padarg (K:=QcF)) (ac : bool) (dflt : Qc)
-      (tn ts tc : nat -> Qc) (td : nat -> nat -> Qc) (ss sc : nat -> Qc) (sd : nat -> nat -> Qc)
-      (img : list (list Qc)) (J : list Qc) :
-  wf (K:=QcF) 2 tn ts td -> wf (K:=QcF) 2 (zsz (sz2 img)) ss sd -> rect2 (K:=QcF) (zlen (hd [] img)) img -> length J = 2%nat ->
-  okQ m (isizes2 img)
-    (itk_cindex (K:=QcF) 2 (vtab 2 tn) (vtab 2 ts) (vtab 2 tc) (tab 2 2 td) (zvec (isizes2 img)) (vtab 2 ss) (vtab 2 sc) (tab 2 2 sd) J) ->
+Lemma sample_matches_itk2_Qc (m : smode) (p : padarg (K:=QcF)) (ac : bool) (dflt : QcF)
+      (tn ts tc : nat -> QcF) (td : nat -> nat -> QcF) (ss sc : nat -> QcF) (sd : nat -> nat -> QcF)
+      (img : list (list QcF)) (J : list QcF) :
+  wf (K:=QcF) 2 tn ts td -> wf (K:=QcF) 2 (zsz (K:=QcF) (sz2 (K:=QcF) img)) ss sd -> rect2 (K:=QcF) (zlen (hd [] img)) img -> length J = 2%nat ->
+  okQ m (isizes2 (K:=QcF) img)
+    (itk_cindex (K:=QcF) 2 (vtab 2 tn) (vtab 2 ts) (vtab 2 tc) (tab 2 2 td) (zvec (K:=QcF) (isizes2 (K:=QcF) img)) (vtab 2 ss) (vtab 2 sc) (tab 2 2 sd) J) ->
   qdp_sample2 m p ac (vtab 2 tn) (vtab 2 ts) (vtab 2 tc) (tab 2 2 td) (vtab 2 ss) (vtab 2 sc) (tab 2 2 sd) img J
   = qitk_resample2 m dflt (vtab 2 tn) (vtab 2 ts) (vtab 2 tc) (tab 2 2 td) (vtab 2 ss) (vtab 2 sc) (tab 2 2 sd) img J.
 Proof.
@@ -119,13 +119,13 @@ Proof.
   apply okQ_ok. exact Hok.
 Qed.
 
-Lemma sample_matches_itk3_Qc (m : smode) (p : padarg (K:=QcF)) (ac : bool) (dflt : Qc)
-      (tn ts tc : nat -> Qc) (td : nat -> nat -> Qc) (ss sc : nat -> Qc) (sd : nat -> nat -> Qc)
-      (img : list (list (list Qc))) (J : list Qc) :
-  wf (K:=QcF) 3 tn ts td -> wf (K:=QcF) 3 (zsz (sz3 img)) ss sd ->
+Lemma sample_matches_itk3_Qc (m : smode) (p : padarg (K:=QcF)) (ac : bool) (dflt : QcF)
+      (tn ts tc : nat -> QcF) (td : nat -> nat -> QcF) (ss sc : nat -> QcF) (sd : nat -> nat -> QcF)
+      (img : list (list (list QcF))) (J : list QcF) :
+  wf (K:=QcF) 3 tn ts td -> wf (K:=QcF) 3 (zsz (K:=QcF) (sz3 (K:=QcF) img)) ss sd ->
   rect3 (K:=QcF) (zlen (hd [] (hd [] img))) (zlen (hd [] img)) img -> length J = 3%nat ->
-  okQ m (isizes3 img)
-    (itk_cindex (K:=QcF) 3 (vtab 3 tn) (vtab 3 ts) (vtab 3 tc) (tab 3 3 td) (zvec (isizes3 img)) (vtab 3 ss) (vtab 3 sc) (tab 3 3 sd) J) ->
+  okQ m (isizes3 (K:=QcF) img)
+    (itk_cindex (K:=QcF) 3 (vtab 3 tn) (vtab 3 ts) (vtab 3 tc) (tab 3 3 td) (zvec (K:=QcF) (isizes3 (K:=QcF) img)) (vtab 3 ss) (vtab 3 sc) (tab 3 3 sd) J) ->
   qdp_sample3 m p ac (vtab 3 tn) (vtab 3 ts) (vtab 3 tc) (tab 3 3 td) (vtab 3 ss) (vtab 3 sc) (tab 3 3 sd) img J
   = qitk_resample3 m dflt (vtab 3 tn) (vtab 3 ts) (vtab 3 tc) (tab 3 3 td) (vtab 3 ss) (vtab 3 sc) (tab 3 3 sd) img J.
 Proof.
@@ -133,12 +133,12 @@ Proof.
   apply okQ_ok. exact Hok.
 Qed.
 
-Lemma module_matches_itk2_Qc (m : smode) (p : padarg (K:=QcF)) (A : axes) (ac : bool) (dflt : Qc)
-      (tn ts tc : nat -> Qc) (td : nat -> nat -> Qc) (ss sc : nat -> Qc) (sd : nat -> nat -> Qc)
-      (img : list (list Qc)) (J : list Qc) :
-  wf (K:=QcF) 2 tn ts td -> wf (K:=QcF) 2 (zsz (sz2 img)) ss sd -> rect2 (K:=QcF) (zlen (hd [] img)) img -> length J = 2%nat ->
-  okQ m (isizes2 img)
-    (itk_cindex (K:=QcF) 2 (vtab 2 tn) (vtab 2 ts) (vtab 2 tc) (tab 2 2 td) (zvec (isizes2 img)) (vtab 2 ss) (vtab 2 sc) (tab 2 2 sd) J) ->
+Lemma module_matches_itk2_Qc (m : smode) (p : padarg (K:=QcF)) (A : axes) (ac : bool) (dflt : QcF)
+      (tn ts tc : nat -> QcF) (td : nat -> nat -> QcF) (ss sc : nat -> QcF) (sd : nat -> nat -> QcF)
+      (img : list (list QcF)) (J : list QcF) :
+  wf (K:=QcF) 2 tn ts td -> wf (K:=QcF) 2 (zsz (K:=QcF) (sz2 (K:=QcF) img)) ss sd -> rect2 (K:=QcF) (zlen (hd [] img)) img -> length J = 2%nat ->
+  okQ m (isizes2 (K:=QcF) img)
+    (itk_cindex (K:=QcF) 2 (vtab 2 tn) (vtab 2 ts) (vtab 2 tc) (tab 2 2 td) (zvec (K:=QcF) (isizes2 (K:=QcF) img)) (vtab 2 ss) (vtab 2 sc) (tab 2 2 sd) J) ->
   qmod_sample2 m p A ac (vtab 2 tn) (vtab 2 ts) (vtab 2 tc) (tab 2 2 td) (vtab 2 ss) (vtab 2 sc) (tab 2 2 sd) img J
   = qitk_resample2 m dflt (vtab 2 tn) (vtab 2 ts) (vtab 2 tc) (tab 2 2 td) (vtab 2 ss) (vtab 2 sc) (tab 2 2 sd) img J.
 Proof.
@@ -146,13 +146,13 @@ Proof.
   apply okQ_ok. exact Hok.
 Qed.
 
-Lemma module_matches_itk3_Qc (m : smode) (p : padarg (K:=QcF)) (A : axes) (ac : bool) (dflt : Qc)
-      (tn ts tc : nat -> Qc) (td : nat -> nat -> Qc) (ss sc : nat -> Qc) (sd : nat -> nat -> Qc)
-      (img : list (list (list Qc))) (J : list Qc) :
-  wf (K:=QcF) 3 tn ts td -> wf (K:=QcF) 3 (zsz (sz3 img)) ss sd ->
+Lemma module_matches_itk3_Qc (m : smode) (p : padarg (K:=QcF)) (A : axes) (ac : bool) (dflt : QcF)
+      (tn ts tc : nat -> QcF) (td : nat -> nat -> QcF) (ss sc : nat -> QcF) (sd : nat -> nat -> QcF)
+      (img : list (list (list QcF))) (J : list QcF) :
+  wf (K:=QcF) 3 tn ts td -> wf (K:=QcF) 3 (zsz (K:=QcF) (sz3 (K:=QcF) img)) ss sd ->
   rect3 (K:=QcF) (zlen (hd [] (hd [] img))) (zlen (hd [] img)) img -> length J = 3%nat ->
-  okQ m (isizes3 img)
-    (itk_cindex (K:=QcF) 3 (vtab 3 tn) (vtab 3 ts) (vtab 3 tc) (tab 3 3 td) (zvec (isizes3 img)) (vtab 3 ss) (vtab 3 sc) (tab 3 3 sd) J) ->
+  okQ m (isizes3 (K:=QcF) img)
+    (itk_cindex (K:=QcF) 3 (vtab 3 tn) (vtab 3 ts) (vtab 3 tc) (tab 3 3 td) (zvec (K:=QcF) (isizes3 (K:=QcF) img)) (vtab 3 ss) (vtab 3 sc) (tab 3 3 sd) J) ->
   qmod_sample3 m p A ac (vtab 3 tn) (vtab 3 ts) (vtab 3 tc) (tab 3 3 td) (vtab 3 ss) (vtab 3 sc) (tab 3 3 sd) img J
   = qitk_resample3 m dflt (vtab 3 tn) (vtab 3 ts) (vtab 3 tc) (tab 3 3 td) (vtab 3 ss) (vtab 3 sc) (tab 3 3 sd) img J.
 Proof.
@@ -160,20 +160,20 @@ Proof.
   apply okQ_ok. exact Hok.
 Qed.
 
-Lemma sample_self_id2_Qc (m : smode) (p : padarg (K:=QcF)) (ac : bool) (s c : nat -> Qc) (d : nat -> nat -> Qc)
-      (img : list (list Qc)) (jx jy : Z) :
-  wf (K:=QcF) 2 (zsz (sz2 img)) s d -> rect2 (K:=QcF) (zlen (hd [] img)) img ->
+Lemma sample_self_id2_Qc (m : smode) (p : padarg (K:=QcF)) (ac : bool) (s c : nat -> QcF) (d : nat -> nat -> QcF)
+      (img : list (list QcF)) (jx jy : Z) :
+  wf (K:=QcF) 2 (zsz (K:=QcF) (sz2 (K:=QcF) img)) s d -> rect2 (K:=QcF) (zlen (hd [] img)) img ->
   (0 <= jx < zlen (hd [] img))%Z -> (0 <= jy < zlen img)%Z ->
-  qdp_sample2 m p ac (zvec (isizes2 img)) (vtab 2 s) (vtab 2 c) (tab 2 2 d) (vtab 2 s) (vtab 2 c) (tab 2 2 d) img
-    [of_Z jx; of_Z jy] = val2 img jy jx.
+  qdp_sample2 m p ac (zvec (K:=QcF) (isizes2 (K:=QcF) img)) (vtab 2 s) (vtab 2 c) (tab 2 2 d) (vtab 2 s) (vtab 2 c) (tab 2 2 d) img
+    [of_Z (K:=QcF) jx; of_Z jy] = val2 (K:=QcF) img jy jx.
 Proof. exact (sample_self_id2 QcF QcF_field QcF_char0 floorQ nearQ floorQ_of_Z nearQ_of_Z m p ac s c d img jx jy). Qed.
 
-Lemma sample_self_id3_Qc (m : smode) (p : padarg (K:=QcF)) (ac : bool) (s c : nat -> Qc) (d : nat -> nat -> Qc)
-      (img : list (list (list Qc))) (jx jy jz : Z) :
-  wf (K:=QcF) 3 (zsz (sz3 img)) s d -> rect3 (K:=QcF) (zlen (hd [] (hd [] img))) (zlen (hd [] img)) img ->
+Lemma sample_self_id3_Qc (m : smode) (p : padarg (K:=QcF)) (ac : bool) (s c : nat -> QcF) (d : nat -> nat -> QcF)
+      (img : list (list (list QcF))) (jx jy jz : Z) :
+  wf (K:=QcF) 3 (zsz (K:=QcF) (sz3 (K:=QcF) img)) s d -> rect3 (K:=QcF) (zlen (hd [] (hd [] img))) (zlen (hd [] img)) img ->
   (0 <= jx < zlen (hd [] (hd [] img)))%Z -> (0 <= jy < zlen (hd [] img))%Z -> (0 <= jz < zlen img)%Z ->
-  qdp_sample3 m p ac (zvec (isizes3 img)) (vtab 3 s) (vtab 3 c) (tab 3 3 d) (vtab 3 s) (vtab 3 c) (tab 3 3 d) img
-    [of_Z jx; of_Z jy; of_Z jz] = val3 img jz jy jx.
+  qdp_sample3 m p ac (zvec (K:=QcF) (isizes3 (K:=QcF) img)) (vtab 3 s) (vtab 3 c) (tab 3 3 d) (vtab 3 s) (vtab 3 c) (tab 3 3 d) img
+    [of_Z (K:=QcF) jx; of_Z jy; of_Z jz] = val3 (K:=QcF) img jz jy jx.
 Proof. exact (sample_self_id3 QcF QcF_field QcF_char0 floorQ nearQ floorQ_of_Z nearQ_of_Z m p ac s c d img jx jy jz). Qed.
 
 (* the branch tables of core.image.grid_sample (generated) are the ones the model assumes: every mode
